@@ -2018,6 +2018,21 @@ func descLog(n *node) string {
 	return "[" + strings.Join(parts, " ") + "]"
 }
 
+// descMemLog renders the log as the RawNode sees it (persisted entries overlaid by what it has
+// not handed out yet).
+func descMemLog(n *node) string {
+	var parts []string
+	if n.snapIdx > 0 {
+		parts = append(parts, fmt.Sprintf("snap(%d,t%d)", n.snapIdx, n.snapTrm))
+	}
+	for i := n.snapIdx + 1; i <= n.memLastIndex(); i++ {
+		if e, ok := n.memEntryAt(i); ok {
+			parts = append(parts, descEntry(e))
+		}
+	}
+	return "[" + strings.Join(parts, " ") + "]"
+}
+
 func sortedIDs(m map[uint64]struct{}) []uint64 {
 	ids := make([]uint64, 0, len(m))
 	for id := range m {
